@@ -515,10 +515,24 @@ class AutoSerialize:
         else:
             items = obj.__dict__.items()
 
+        # attributes of an nn.Module that are registered parameters, buffers or sub-modules live in
+        # these dicts rather than in __dict__ itself: skipping by type has to look inside them
+        registries = ("_parameters", "_buffers", "_modules")
+        dropped: set[str] = set()
+        if skip_types and isinstance(obj, torch.nn.Module):
+            for reg in registries:
+                members = obj.__dict__.get(reg)
+                if isinstance(members, dict):
+                    dropped |= {k for k, v in members.items() if isinstance(v, skip_types)}
+
         for attr_name, attr_value in items:
             # Skip any attributes matching names/types in skip lists
             if attr_name in skip_names or isinstance(attr_value, skip_types):
                 continue
+            if dropped and attr_name in registries and isinstance(attr_value, dict):
+                attr_value = {k: v for k, v in attr_value.items() if k not in dropped}
+            elif dropped and attr_name == "_non_persistent_buffers_set":
+                attr_value = set(attr_value) - dropped
 
             # Use unified serialization method
             self._serialize_value(
